@@ -10,6 +10,22 @@ ASSUMPTIONS = ["worker processes are virtual processes under harness/vsched.py (
 
 PARTS = [_compose.ko_part("ko", sdl_ko.gen_c09, sdl_ko.check_c09, 200, 4000, known=None)]
 
+def _real_slice(ctx):
+    # real OS processes: thorough tier only (wall-clock bound, a few seconds per case)
+    if ctx.tier != "thorough":
+        return
+    jobs = sdl_ko.gen_c09_real(ctx, 24)
+    ctx.pmap(sdl_ko.check_c09_real, jobs, nproc=6)
+
+
+def _real_replay(ctx, payload):
+    from ..core import Ctx
+    sub = Ctx(ctx.prop, ctx.tier, ctx.seed)
+    sdl_ko.check_c09_real(sub, payload["input"])
+    return (False, sub.failures[0].what) if sub.failures else (True, "ok")
+
+
+PARTS.append(_compose.Part("real", _real_slice, _real_replay))
 try:
     from . import mp_parts
     PARTS += mp_parts.parts("C09")
